@@ -17,8 +17,13 @@
 (*   {"ev":"load","buf":[..]}                                               *)
 (*   {"ev":"call","c":CALL,"out":"ok"|"err"|"panic","v":V,"pos":P,"used":U} *)
 (* Every call must have an outcome ok/err and leave the cursor inside the   *)
-(* buffer (C02).  With Strict the outcome, value and cursor must in         *)
-(* addition be those of the specified decoder, except where it says "any".  *)
+(* buffer (C02).  A call that panicked or left the cursor outside is        *)
+(* consumed by TCallBad, which prints a finding classified by the outcome   *)
+(* the specified decoder has for that call (the input class): bin/check     *)
+(* turns every finding into a property failure, and one pass over a trace   *)
+(* collects all of them.  With Strict the outcome, value and cursor of all  *)
+(* other calls must in addition be those of the specified decoder, except   *)
+(* where it says "any" (a mismatch there alone is drift).                   *)
 EXTENDS FlatCodec, TraceKit
 
 CONSTANTS CheckFormat, Strict
@@ -69,8 +74,13 @@ TEnd == /\ IsEvent("end")
 
 TLoad == IsEvent("load") /\ bits' = UnpackBytes(Rec[l].buf) /\ ops' = <<>> /\ mode' = "dec" /\ pos' = 0 /\ outs' = <<>>
 
+OpName(c) == IF c.op = "list" THEN "list-of-" \o c.of
+             ELSE IF c.op = "top" THEN "top-" \o c.of
+             ELSE IF c.op = "bits" THEN "bits8-" \o ToString(c.n) ELSE c.op
+Bad(r) == r.out = "panic" \/ Cursor(r) > Len(bits) \/ r.used > 7
+
 TCallStrict ==
-    /\ IsEvent("call") /\ Strict
+    /\ IsEvent("call") /\ Strict /\ ~Bad(Rec[l])
     /\ Rec[l].out \in {"ok", "err"}
     /\ Read(Rec[l].c)
     /\ pos' = Cursor(Rec[l])
@@ -78,13 +88,20 @@ TCallStrict ==
          r.out # "any" => /\ Rec[l].out = r.out
                           /\ r.out = "ok" => Rec[l].v = r.val
 
+TCallBad ==
+    /\ IsEvent("call") /\ mode = "dec" /\ Bad(Rec[l])
+    /\ PrintT(<<"VEC", ToJson([ finding |-> IF Rec[l].out = "panic" THEN "panic" ELSE "cursor-out-of-bounds",
+                                op |-> OpName(Rec[l].c), class |-> DecAt(bits, pos, Rec[l].c).class, event |-> l ])>>)
+    /\ pos' = Len(bits)
+    /\ UNCHANGED <<bits, ops, mode, outs>>
+
 TCallLoose ==
-    /\ IsEvent("call") /\ ~Strict
+    /\ IsEvent("call") /\ ~Strict /\ ~Bad(Rec[l])
     /\ Rec[l].out \in {"ok", "err"}
     /\ mode = "dec"
     /\ pos' = Cursor(Rec[l]) /\ pos' <= Len(bits) /\ Rec[l].used \in 0..7
     /\ outs' = Append(outs, [c |-> Rec[l].c, out |-> Rec[l].out, val |-> 0, p |-> pos', class |-> "observed"])
     /\ UNCHANGED <<bits, ops, mode>>
 
-TNext == TReset \/ TEnc \/ TFinish \/ TDec \/ TEnd \/ TLoad \/ TCallStrict \/ TCallLoose
+TNext == TReset \/ TEnc \/ TFinish \/ TDec \/ TEnd \/ TLoad \/ TCallStrict \/ TCallLoose \/ TCallBad
 =============================================================================
